@@ -164,7 +164,9 @@ pub fn format_buf(args: Vec<Rc<Object>>) -> Result<Collector, String> {
             }
             continue;
         } else if curr == '}' {
-            if next == '}' {
+            // '}}' is an escape only outside a specifier: in "{}}}" the first
+            // brace closes the specifier and the other two are the escape
+            if !in_spec && next == '}' {
                 write!(collector, "}}").map_err(|e| e.to_string())?;
                 idx_fmt += 2; // skip next brace as well
                 continue;
